@@ -46,7 +46,7 @@ PROBES = ("score_vs_part", "same_call_twice_with_other_between", "tie_across_seg
 def generate(seed, tier, cfg):
     st = R.Streams(seed)
     k, o = st.knobs, st.ops
-    asc = gen.gen_score(st.workload, profile="unfold")
+    asc = gen.gen_score(st.workload, profile="unfold", size=gen.pick_size(tier, st.knobs))
     p = asc["parts"][0]
     if k.random() < 0.12:
         # no repeat structure at all
